@@ -37,9 +37,9 @@ META = {
                                                                'numpy.random.seed(k) + draws + an unrelated model '
                                                                'built and stepped'],
                  'process matrix': 'PYTHONHASHSEED 0,1,4242,random x fresh interpreter, fork, spawn, batch_run p=1, p=2'},
-    'bounds': {'quick': '2 models x (build + 2 steps) + 2 perturbations = 1120 interleavings per combination, 4 '
+    'bounds': {'quick': '2 models x (build + 2 steps + finish) + 2 perturbations = 6300 interleavings per combination, 4 '
                         'combinations, 1 seed pair; matrix: 4 hash seeds x fresh interpreter, fork/spawn/batch under '
-                        'hash seed 0', 'thorough': '(build + 3 steps), 3-model combination, 2 seed pairs, full matrix'},
+                        'hash seed 0', 'thorough': '(build + 3 steps + finish), 3-model combination, full matrix'},
     'assumptions': ['seeds come from VERIF_SEED (seed*1000+i); the enumerated structure and the verdict do not depend '
                     'on them', 'the scripted models draw only from model.random and through the library'],
 }
@@ -51,6 +51,10 @@ class Wealth(Core.Component):
     def __init__(self, agent, model, w):
         super().__init__(agent, model)
         self.w = w
+
+
+class Marker(Core.Component):
+    pass
 
 
 class Trace(Collector):
@@ -81,6 +85,11 @@ class Gift(Core.System):
                 b[Wealth].w += 1
         rich = env.get_random_agent(tag=1)
         tr.append(('rich', None if rich is None else rich.id))
+        # a template of two component types (filtered differently from the single-type and unfiltered paths)
+        both = env.shuffle(Wealth, Marker)
+        tr.append(('both', [a.id for a in both]))
+        pick2 = env.get_random_agent(Marker, Wealth, tag=0)
+        tr.append(('pick2', None if pick2 is None else pick2.id))
         if len(env) > 2 and m.random.random() < 0.4:
             victim = env.get_random_agent()
             tr.append(('death', victim.id))
@@ -89,6 +98,8 @@ class Gift(Core.System):
             m.born += 1
             a = Core.Agent(f'n{m.born}', m, tag=m.born % 2)
             a.add_component(Wealth(a, m, m.random.randint(0, 3)))
+            if m.born % 3 != 0:
+                a.add_component(Marker(a, m))
             self._add(a)
             tr.append(('birth', a.id))
 
@@ -141,7 +152,21 @@ class SModel(Core.Model):
         for i in range(n):
             a = Core.Agent(f'a{i}', self, tag=i % 2)
             a.add_component(Wealth(a, self, 2 + i % 3))
+            if i != 1:
+                a.add_component(Marker(a, self))
             gift._add(a)
+
+
+def finish(model):
+    """Post-run step: the model is marked complete, then a closing lottery and ranking are drawn through the framework."""
+    model.complete()
+    env = model.environment
+    tr = model.systems['trace'].records
+    w = env.get_random_agent(Wealth)
+    tr.append(('lottery', None if w is None else w.id))
+    tr.append(('ranking', [a.id for a in env.shuffle()]))
+    w2 = env.get_random_agent()
+    tr.append(('lottery2', None if w2 is None else w2.id))
 
 
 def digest_of(model):
@@ -150,6 +175,15 @@ def digest_of(model):
 
 
 def solo(kind, seed, steps):
+    reset_library()
+    m = SModel(kind, seed)
+    for _ in range(steps):
+        m.execute()
+    finish(m)
+    return digest_of(m)
+
+
+def solo_nofinish(kind, seed, steps):
     reset_library()
     m = SModel(kind, seed)
     for _ in range(steps):
@@ -218,12 +252,15 @@ def run_interleaving(case):
         if i not in built:
             built[i] = SModel(kind, seed)
             done[i] = 0
-        else:
+        elif done[i] < steps:
             built[i].execute()
+            done[i] += 1
+        else:
+            finish(built[i])        # last atom of a model: completion + post-run draws
             done[i] += 1
     out = []
     for i, (kind, seed) in enumerate(models):
-        if done.get(i) != steps:
+        if done.get(i) != steps + 1:
             raise hbfs.HarnessError(f'interleaving {order} does not give model {i} its {steps} steps')
         out.append(digest_of(built[i]))
     return out
@@ -261,16 +298,17 @@ def interleaving_cases(tier, seed):
     if tier == 'thorough':
         combos += [[['grid', s3], ['grid', s3]], [['space', s1], ['space', s1]]]
     for models in combos:
-        counts = {chr(ord('A') + i): steps + 1 for i in range(len(models))}
+        counts = {chr(ord('A') + i): steps + 2 for i in range(len(models))}      # build, steps, finish
         counts['P'] = 1
         counts['Q'] = 1
         for order in merges(counts):
             yield {'leg': 'interleave', 'models': models, 'steps': steps, 'order': order, 'pseed': seed * 7 + 11}
     if tier == 'thorough':
         models = [['plain', s1], ['grid', s2], ['space', s3]]
-        counts = {'A': 3, 'B': 3, 'C': 3, 'P': 1}
+        counts = {'A': 4, 'B': 4, 'C': 4, 'P': 1}
         for order in merges(counts):
             yield {'leg': 'interleave', 'models': models, 'steps': 2, 'order': order, 'pseed': seed * 7 + 11}
+
 
 
 # ---------------------------------------------------------------------------------------------------------
@@ -337,7 +375,7 @@ def matrix_case(case):
     got = run_child(case['hashseed'], case['how'], seeds, steps)
     if 'batch' in got:
         for k, digs in zip(KINDS, got['batch']):
-            want = sorted({ref[f'{k}:{s}'] for s in seeds})
+            want = sorted({solo_nofinish(k, s, steps) for s in seeds})      # batch_run has no post-run step
             if digs != want:
                 raise Violation(f'trajectories of {k} models run by batch_run ({case["how"]}) under PYTHONHASHSEED='
                                 f'{case["hashseed"]} differ from the solo trajectories', expected=want, observed=digs)
